@@ -285,11 +285,17 @@ pub fn run_unsub_race(body: &[Sexp]) -> String {
     let (inside_tx, inside_rx) = std::sync::mpsc::channel::<()>();
     let (fin_tx, fin_rx) = std::sync::mpsc::channel::<()>();
     let (r2, l2, h2) = (returned.clone(), late.clone(), hot.clone());
+    // ... and a finalize callback on it must run, once (the subscription was unsubscribed)
+    let fin_calls = Arc::new(AtomicUsize::new(0));
+    let fc2 = fin_calls.clone();
     let subscription = observable::defer(move || {
       let _ = inside_tx.send(());
       std::thread::sleep(Duration::from_millis(15));
       let _ = fin_tx.send(());
       h2.clone()
+    })
+    .finalize_threads(move || {
+      fc2.fetch_add(1, Ordering::SeqCst);
     })
     .subscribe_on(pool.clone())
     .subscribe(move |_: i32| {
@@ -307,6 +313,10 @@ pub fn run_unsub_race(body: &[Sexp]) -> String {
     hot.clone().next(1);
     if late.load(Ordering::SeqCst) > 0 {
       return "the subscription produced by a cancelled subscribing task was left alive: the subscriber was called after unsubscribe() had returned".into();
+    }
+    let calls = fin_calls.load(Ordering::SeqCst);
+    if calls != 1 {
+      return format!("the finalize callback of a subscription made by a subscribing task and unsubscribed ran {calls} times");
     }
   }
   "ok".into()
